@@ -303,6 +303,25 @@ def case_task(states):
                 if k == 1:
                     for msg in mog_sigma_fails(torch, dd):
                         fail("sampler", msg)
+                if k == 2 and dd == 1 and not rows:
+                    # a network with dropout, in evaluation mode: the density after sampling is the density before
+                    # sampling (the one the samples follow), a function of its argument, and it integrates to one
+                    torch.manual_seed(31)
+                    md = MADEMoG(1, 8, None, num_blocks=1, num_mixture_components=2, dropout_probability=0.4).double()
+                    md.eval()
+                    qd = torch.linspace(-3.0, 3.0, 41, dtype=torch.float64).reshape(-1, 1)
+                    with torch.no_grad():
+                        before = md.log_prob(qd)
+                        try:
+                            md.float().sample(3)
+                            md.double()
+                        except Exception:  # noqa
+                            md.double()
+                        after1, after2 = md.log_prob(qd), md.log_prob(qd)
+                    if not torch.equal(after1, after2) or not torch.allclose(before, after1, atol=1e-6):
+                        fail("sampler", "MADEMoG with dropout, evaluation mode: log_prob after sample() differs from log_prob before it by %.3g (and between two calls by %.3g): the density is no longer the one that was sampled from" % (float((before - after1).abs().max()), float((after1 - after2).abs().max())))
+                    elif any(mod.training for mod in md.modules()):
+                        fail("sampler", "MADEMoG with dropout: sample() in evaluation mode leaves sub-modules in training mode")
                 for r in range(max(rows, 1)):
                     c = ctxs[r : r + 1] if rows else None
                     f = (lambda q: m.log_prob(q, c.expand(q.shape[0], -1))) if rows else (lambda q: m.log_prob(q))
@@ -321,6 +340,22 @@ def case_task(states):
                 lpb = db.log_prob(torch.tensor([[0.0, 2.25], [0.5, 1.0]]))
                 if tuple(lpb.shape) != (2,) or not torch.allclose(torch.exp(lpb), torch.tensor([0.5, 0.25]), atol=1e-6):
                     fail("not_normalised", "a batch of two boxes (volumes 2 and 4): densities %s inside the boxes, expected [0.5, 0.25]" % torch.exp(lpb).tolist())
+                # a double-precision box that is narrow against its offset (single precision cannot hold its bounds)
+                lo64 = torch.tensor([1000.0, -1.0], dtype=torch.float64)
+                hi64 = torch.tensor([1000.0001, 1.0], dtype=torch.float64)
+                d64 = U.BoxUniform(low=lo64, high=hi64)
+                g64 = torch.Generator().manual_seed(3)
+                pts = lo64 + (hi64 - lo64) * torch.rand(64, 2, generator=g64, dtype=torch.float64)
+                lp64 = d64.log_prob(pts)
+                vol = float(((hi64 - lo64)).prod())
+                if tuple(lp64.shape) != (64,) or not torch.allclose(torch.exp(lp64.double()) * vol, torch.ones(64, dtype=torch.float64), atol=1e-6):
+                    fail("not_normalised", "BoxUniform([1000, -1], [1000.0001, 1]) in double precision: density x volume = %s on points inside the box (expected 1 everywhere)" % sorted(set(round(float(v), 4) for v in torch.exp(lp64.double()) * vol))[:4])
+                torch.manual_seed(5)
+                s64 = d64.sample((200,))
+                if bool((s64.double() < lo64).any() or (s64.double() > hi64).any()):
+                    fail("sampler", "BoxUniform([1000, -1], [1000.0001, 1]) in double precision: %d of 200 samples fall outside the box" % int(((s64.double() < lo64) | (s64.double() > hi64)).any(-1).sum()))
+                if not torch.allclose(d64.mean.double(), (lo64 + hi64) / 2, atol=1e-7):
+                    fail("mean", "BoxUniform([1000, -1], [1000.0001, 1]) in double precision: mean %s, centre of the box %s" % (d64.mean.tolist(), ((lo64 + hi64) / 2).tolist()))
                 d0 = U.BoxUniform(low=torch.tensor([0.0, 1.0]), high=torch.tensor([2.0, 5.0]), reinterpreted_batch_ndims=0)
                 lp0 = d0.log_prob(torch.tensor([1.0, 2.0]))
                 if tuple(lp0.shape) != (2,) or not torch.allclose(torch.exp(lp0), torch.tensor([0.5, 0.25]), atol=1e-6):
